@@ -268,7 +268,7 @@ pub fn run(ctx: &mut Ctx) {
     }
     let total = plan_list.len() as u64;
     ctx.max("d_x_placement_pairs_enumerated", total as i64);
-    let reps = ctx.n(2, 12);
+    let reps = ctx.n(2, 24);
     let pl2 = plan_list.clone();
     ctx.family("grid", total * reps, move |ctx, rng, i| {
         let (d, name, place) = pl2[(i % total) as usize].clone();
@@ -288,7 +288,7 @@ pub fn run(ctx: &mut Ctx) {
         });
     }
     // random durations and exit offsets
-    let nr = ctx.n(200, 5000);
+    let nr = ctx.n(200, 20_000);
     ctx.family("random", nr, |ctx, rng, _i| {
         let d = match rng.below(4) {
             0 => rng.below(5_000_000) as i128,
